@@ -328,7 +328,7 @@ var registry = map[string]*Property{
 		NotDecided: "ID arithmetic across imports; minimality of the emitted table beyond lookup-before-add",
 		Technique:  tabTech + "; SSA dominance for ORD; call-graph fixed point and value flow for OWN-TEXTAUTH; copy-source and path search rules for the builder and the writer" + "; SSA referrer check of exported functions' parameters" + "; postcondition check of Adjust; must-pass-through of a write per loop iteration",
 		DesignRef:  "DESIGN.md §3.4, §3.5, §4 C11",
-		Rules:      []Rule{rLstFields, rOrdLstFirst, rOrdFirstWins, only(rTextAuth, 2, posHas("ion/binarywriter.go")), rImpFirst, rBuild, rWrCache, rIdxPair, rFixedLST, rParamUse, rAdjMax, only(rAppEach, 1, funcHas("WriteTo"))},
+		Rules:      []Rule{rLstFields, rOrdLstFirst, rOrdFirstWins, only(rTextAuth, 2, posHas("ion/binarywriter.go")), rImpFirst, rBuild, rWrCache, rIdxPair, rFixedLST, rParamUse, rAdjMax, only(rAppEach, 1, whatHas("one list element per entry"))},
 	},
 	"C12": {
 		Decided:    "For all 24 error-returning Writer methods on each writer implementation: the sticky error is tested before any effect on the writer (ERR-GUARD-W) and every returned error is the sticky error (ERR-STICKY-W); every value opened is closed on each success path (ORD-VALUE); Finish re-arms the binary writer before every success exit (ORD-REARM); every panicking pop on the writer-side stacks is dominated by a non-emptiness fact (ORD-POPGUARD, writer obligations); nothing in the writer implementation reachable from the Writer methods consults a time-, random- or schedule-dependent source and every map range there has an order-insensitive body (OWN-NONDET, functions outside marshal.go, fields.go and the command); an exit that refuses a call with an unrecorded UsageError (Finish away from the top level) is reached before any effect on the writer (REFUSE-PURE-W); closing a container reaches clear() before every exit that may succeed, so a pending field name or annotation never leaks to a later value (ORD-ENDCLEAR); the binary writer keeps no text-to-ID memory that outlives its symbol table builder (OWN-WRCACHE). The text writer forgets an owed separator only on a path that writes to the output (ORD-SEPSTATE). A slice emptied by reslicing is not stored into a writer field while a value read from the same field is still used, so pending annotations set aside during the symbol table's emission are not overwritten (OWN-RESLICE0).",
@@ -420,6 +420,7 @@ var registry = map[string]*Property{
 
 // devRules: every rule by name, for `ionlint -dev RULE`.
 var devRules = map[string]Rule{
+	"ORD-VALUE":       rOrdValue,
 	"TAB-LSTFIELDS":   rLstFields,
 	"ORD-LSTHIDE":     rOrdLstHide,
 	"TAB-KEYWORD":     rKeyword,
